@@ -160,14 +160,16 @@ Definition gradient_at (total : nat) (k : Z) : option (list F) :=
 Definition state_gradient (d : nat) (flag : bool) (i : Z) : option (list F) :=
   gradient_at (d * d) (flat_state (state_index_of_var flag i)).
 Definition povm_gradient (d m : nat) (flag : bool) (i : Z) : option (list F) :=
-  gradient_at (m * (d * d)) (flat_povm (Z.of_nat d) (povm_index_of_var (Z.of_nat (d * d)) i)).
+  gradient_at (m * (d * d)) (flat_povm (Z.of_nat d) (povm_index_of_var (Z.of_nat d * Z.of_nat d) i)).
 Definition gate_gradient (d : nat) (flag : bool) (i : Z) : option (list F) :=
   gradient_at (d * d * (d * d)) (flat_gate (Z.of_nat d) (gate_index_of_var (Z.of_nat d) flag i)).
 Definition mp_gradient (d m : nat) (flag : bool) (i : Z) : option (list F) :=
   gradient_at (m * (d * d * (d * d)))
     (flat_mproc (Z.of_nat d) (mproc_index_of_var (Z.of_nat d) (Z.of_nat m) flag i)).
 
-(* ------------------------------------------------------------------ one type for all four kinds *)
+(* ------------------------------------------------------------------ one type for all four kinds
+   (domain note: to_var of a ONE-element POVM under the constraint raises in numpy - np.hstack of an empty list -
+   while the model is total; [qop_wf] therefore asks for two elements in that case) *)
 Inductive qop :=
 | QState (d : nat) (flag : bool) (vec : list F)
 | QGate (d : nat) (flag : bool) (hs : list (list F))
@@ -193,11 +195,31 @@ Definition qop_from_var (sdf : nat -> F) (o : qop) (var : list F) : option qop :
   | QPovm d f _ => option_map (QPovm d f) (povm_from_var d (sdf d) f var)
   | QMproc d f h => option_map (QMproc d f) (mp_from_var d (length h) f var)
   end.
+(* <Type>.convert_var_to_stacked_vector / convert_stacked_vector_to_var (static methods; configuration from o) *)
+Definition qop_var_to_stacked (sdf : nat -> F) (o : qop) (var : list F) : option (list F) :=
+  match o with
+  | QState d f _ => Some (state_var_to_stacked (sdf d) f var) | QGate d f _ => Some (gate_var_to_stacked d f var)
+  | QPovm d f _ => povm_var_to_stacked d (sdf d) f var | QMproc d f _ => Some (mp_var_to_stacked d f var)
+  end.
+Definition qop_stacked_to_var (sdf : nat -> F) (o : qop) (st : list F) : option (list F) :=
+  match o with
+  | QState d f _ => Some (state_stacked_to_var f st) | QGate d f _ => Some (gate_stacked_to_var d f st)
+  | QPovm d f _ => povm_stacked_to_var d (sdf d) f st | QMproc d f _ => Some (mp_stacked_to_var d f st)
+  end.
+(* same kind, dimension, flag and number of outcomes *)
+Definition qop_same_shape (o o' : qop) : Prop :=
+  match o, o' with
+  | QState d f _, QState d' f' _ => d = d' /\ f = f'
+  | QGate d f _, QGate d' f' _ => d = d' /\ f = f'
+  | QPovm d f v, QPovm d' f' v' => d = d' /\ f = f' /\ length v = length v'
+  | QMproc d f h, QMproc d' f' h' => d = d' /\ f = f' /\ length h = length h'
+  | _, _ => False
+  end.
 Definition qop_wf (o : qop) : Prop :=
   match o with
-  | QState d _ v => state_wf d v | QGate d _ h => gate_wf d h
-  | QPovm d _ v => (1 <= length v)%nat /\ povm_wf d (length v) v
-  | QMproc d _ h => (1 <= length h)%nat /\ mp_wf d (length h) h
+  | QState d _ v => (1 <= d)%nat /\ state_wf d v | QGate d _ h => (1 <= d)%nat /\ gate_wf d h
+  | QPovm d f v => (1 <= d)%nat /\ ((if f then 2 else 1) <= length v)%nat /\ povm_wf d (length v) v
+  | QMproc d _ h => (1 <= d)%nat /\ (1 <= length h)%nat /\ mp_wf d (length h) h
   end.
 Definition qop_eq_ok (sdf : nat -> F) (o : qop) : Prop :=
   match o with
@@ -215,6 +237,20 @@ Definition qop_num_variables (o : qop) : Z :=
   | QState d f _ => nv_state (Z.of_nat d) f | QGate d f _ => nv_gate (Z.of_nat d) f
   | QPovm d f v => nv_povm (Z.of_nat d) (Z.of_nat (length v)) f
   | QMproc d f h => nv_mproc (Z.of_nat d) (Z.of_nat (length h)) f
+  end.
+(* position in the stacked vector of the object entry that convert_var_index_to_<type>_index designates *)
+Definition qop_flat_index (o : qop) (i : Z) : Z :=
+  match o with
+  | QState d f _ => flat_state (state_index_of_var f i)
+  | QGate d f _ => flat_gate (Z.of_nat d) (gate_index_of_var (Z.of_nat d) f i)
+  | QPovm d f v => flat_povm (Z.of_nat d) (povm_index_of_var (Z.of_nat d * Z.of_nat d) i)
+  | QMproc d f h => flat_mproc (Z.of_nat d) (mproc_index_of_var (Z.of_nat d) (Z.of_nat (length h)) f i)
+  end.
+(* o.calc_gradient(i).to_stacked_vector() *)
+Definition qop_gradient (o : qop) (i : Z) : option (list F) :=
+  match o with
+  | QState d f _ => state_gradient d f i | QGate d f _ => gate_gradient d f i
+  | QPovm d f v => povm_gradient d (length v) f i | QMproc d f h => mp_gradient d (length h) f i
   end.
 End VarObj.
 
